@@ -73,13 +73,46 @@ def expr(names, depth, ops=("and", "or", "xor", "not", "ite", "imp"), consts=Tru
     return st.one_of(*alts)
 
 
+def desugar(e, deep=True):
+    """ITE / Implies written with and / or / not (what the optimizer's own rewrite steps produce)"""
+    k = e[0]
+    if k in ("s", "c"):
+        return e
+    rec = (lambda x: desugar(x, True)) if deep else (lambda x: x)
+    if k == "not":
+        return ["not", rec(e[1])]
+    if k in ("and", "or", "xor"):
+        return [k, [rec(x) for x in e[1]]]
+    if k == "ite":
+        c, t, f = rec(e[1]), rec(e[2]), rec(e[3])
+        return ["or", [["and", [c, t]], ["and", [["not", c], f]]]]
+    if k == "imp":
+        return ["or", [["not", rec(e[1])], rec(e[2])]]
+    raise ValueError(e)
+
+
 @st.composite
 def near_rule_patterns(draw, names):
     """Shapes that almost match the optimizer's rewrite rules."""
     k = draw(st.integers(2, 4))
     k = min(k, len(names))
     vs = draw(st.lists(st.sampled_from(names), min_size=k, max_size=k, unique=True))
-    which = draw(st.integers(0, 5))
+    which = draw(st.integers(0, 7))
+    if which >= 6:
+        # operands that differ as written and coincide once a rewrite step has been applied to them:
+        # x op desugared(x)  (a duplicate may be dropped under and / or, never under xor)
+        shape = draw(st.integers(0, 2))
+        if shape == 0:
+            x = ["ite"] + [draw(expr(names, 1, ("and", "or", "xor", "not"), consts=False)) for _ in range(3)]
+        elif shape == 1:
+            x = ["imp", draw(expr(names, 1, ("and", "or", "xor", "not"), consts=False)), draw(expr(names, 1, ("and", "or", "not"), consts=False))]
+        else:
+            x = draw(expr(names, 2, ("ite", "imp", "and", "xor"), consts=False))
+        y = desugar(x, deep=draw(st.booleans()))
+        ops_ = [x, y] if draw(st.booleans()) else [y, x]
+        if draw(st.integers(0, 2)) == 0:
+            ops_.insert(draw(st.integers(0, 2)), draw(lit(names)))
+        return [draw(st.sampled_from(["xor", "xor", "xor", "and", "or"])), ops_]
     if which == 0:
         # (l1&..&lk) | (~l1&..&~lk)   -- or->xnor rule is only right for k == 2
         neg = draw(st.lists(st.booleans(), min_size=k, max_size=k))
